@@ -9,23 +9,21 @@ Local Open Scope string_scope.
 Local Open Scope list_scope.
 Local Open Scope N_scope.
 
-(* lookup: walk the association list; every malformed shape is a Rust panic (as_conscell /
-   unwrap / as_symbol) *)
-Inductive lres := LFound (v : val) | LMissing | LPanic.
+(* lookup: walk the association list; an entry that is not a (symbol . value) pair binds nothing
+   and the list ends at the first non-cons (environments can be made by hand) *)
+Inductive lres := LFound (v : val) | LMissing.
 
 Fixpoint env_lookup (env : val) (k : sym) : lres :=
-  let entry (kv rest_result : val -> lres) := LMissing in
   match env with
-  | VNil | VMeta _ VNil => LMissing
   | VCons kv rest | VMeta _ (VCons kv rest) =>
     match getv kv with
     | VCons key v => match getv key with
                      | VSym k' => if sym_eqb k' k then LFound v else env_lookup rest k
-                     | _ => LPanic
+                     | _ => env_lookup rest k
                      end
-    | _ => LPanic
+    | _ => env_lookup rest k
     end
-  | _ => LPanic
+  | _ => LMissing
   end.
 
 (* pair_params_and_args *)
@@ -173,7 +171,6 @@ with eval_loop (fuel : nat) (st : state) (e env : val) (envmod : text) (d : N) {
     | VSym k =>
       match env_lookup env k with
       | LFound v => (st, ROk v)
-      | LPanic => (st, RPanic "lookup: malformed environment (as_conscell / unwrap)")
       | LMissing =>
         match k with
         | Unique _ => (st, RSig (make_error "unbound-symbol" (s "eval") [("symbol", e)]))
@@ -247,7 +244,6 @@ with expand_internal (fuel : nat) (st : state) (e env : val) (envmod : text) (d 
       end
     | VSym k =>
       match env_lookup env k with
-      | LPanic => (st, RPanic "lookup: malformed environment (as_conscell / unwrap)", ch)
       | LFound v => match getv v with
                     | VFun true _ _ _ _ _ => (st, ROk v, true)
                     | VNative name => match find_native name native_table with
